@@ -379,6 +379,7 @@ func specIsRejectErr(err error) bool { _, ok := err.(*RejectError); return ok }
 //@                    zzCalls("hsms.(transport).Write") == 0 && zzCalls("hsms.(*ConnectionMetrics).incDataMsgErr") == 0 && zzCalls("hsms.(*ConnectionMetrics).incDataMsgSend") == 0
 //@ ensures [err1]     zzCalls("hsms.(*ConnectionMetrics).incDataMsgErr") <= 1
 //@ ensures [errsend]  zzCalls("hsms.(*ConnectionMetrics).incDataMsgErr") == 1 ==> specIsData(msg) && result1 != nil && result0 == nil
+//@ ensures [reject]   zzCalls("hsms.(*ConnectionMetrics).incDataMsgInflight") == 1 && specIsRejectErr(result1) ==> zzCalls("hsms.(*ConnectionMetrics).incDataMsgErr") == 0
 //@ ensures [reply]    result1 == nil && result0 != nil ==> zzCalls("hsms.(transport).Write") == 1 && zzCalls("hsms.(*ConnectionMetrics).incDataMsgErr") == 0
 
 //@ func (*connection).sendNoReply
@@ -469,3 +470,23 @@ func specBadData(stream, function byte, w bool, item secs2.Item) bool {
 
 //@ func (*DataMessage).Type
 //@ ensures [data] result == DataMsgType
+
+// ---- receive side: one counter increment per data frame that decodes; exactly one recipient ----
+
+//@ func isSecondaryReply
+//@ requires dm != nil
+//@ ensures [e5] result == (dm.header[2]&0x80 == 0 && dm.header[3]%2 == 0)
+
+//@ func (*connection).DeliverOwnedFrame
+//@ nosafety nil-deref nil-iface
+//@ requires c != nil
+//@ emits hsms.(*ConnectionMetrics).incDataMsgRecv, hsms.(*ConnectionMetrics).incDecodeErr, hsms.(*connection).RouteReply, hsms.(*connection).RouteData, hsms.(*connection).checkSessionID
+//@ ensures [recv]   (len(frame) >= 10 && frame[4] == 0 && frame[5] == 0) ==> zzCalls("hsms.(*ConnectionMetrics).incDataMsgRecv") == 1 && zzCalls("hsms.(*ConnectionMetrics).incDecodeErr") == 0
+//@ ensures [norecv] !(len(frame) >= 10 && frame[4] == 0 && frame[5] == 0) ==> zzCalls("hsms.(*ConnectionMetrics).incDataMsgRecv") == 0 && result != nil &&
+//@                  zzCalls("hsms.(*connection).RouteReply") == 0 && zzCalls("hsms.(*connection).RouteData") == 0
+//@ ensures [decerr] !(len(frame) >= 10 && frame[4] == 0 && (frame[5] <= 7 || frame[5] == 9)) ==> zzCalls("hsms.(*ConnectionMetrics).incDecodeErr") == 1
+//@ ensures [once]   zzCalls("hsms.(*connection).RouteReply") <= 1 && zzCalls("hsms.(*connection).RouteData") <= 1
+//@ ensures [sec]    zzCalls("hsms.(*connection).RouteReply") == 1 ==> frame[2]&0x80 == 0 && frame[3]%2 == 0
+//@ ensures [one]    zzCalls("hsms.(*connection).RouteReply") == 1 && zzRet[bool]("hsms.(*connection).RouteReply") ==> zzCalls("hsms.(*connection).RouteData") == 0
+//@ ensures [data]   zzCalls("hsms.(*connection).checkSessionID") == 0 && (len(frame) >= 10 && frame[4] == 0 && frame[5] == 0) &&
+//@                  !(zzCalls("hsms.(*connection).RouteReply") == 1 && zzRet[bool]("hsms.(*connection).RouteReply")) ==> zzCalls("hsms.(*connection).RouteData") == 1
